@@ -20,11 +20,107 @@ F_VARVAL = "zorg.shared.common._var_map_value"
 FILE = "src/zorg/service/templates.py"
 
 
+def init_scenarios(run: Run, model: PyModel) -> None:
+    """Abstract runs of init_from_template over a virtual notes directory with a configured pattern map whose patterns are opaque objects answering
+    `match` as the scenario says (nothing is rendered: ZorgTemplateManager.render is a recorded marker): the template rendered is the one of the FIRST
+    pattern, in configuration order, that matches -- with that match's groups and nobody else's; no match and no explicit template writes nothing; an
+    existing target is left alone unless overwriting was requested; the text written is exactly the rendering."""
+    from ..absint import Interp, Raised, State
+    from ..absval import HObj, Opaque, Ref
+    from ..virtual import World, vpath
+
+    fi = model.func(F_INIT)
+    n = 0
+    scen = [
+        # label, which patterns match, explicit template, target exists, overwrite, expected (template name, groups) or None
+        ("second and third pattern match", (False, True, True), None, False, False, ("t2.zot", {"g2": "from-P2"})),
+        ("only the last pattern matches", (False, False, True), None, False, False, ("t3.zot", {"g3": "from-P3"})),
+        ("all patterns match", (True, True, True), None, False, False, ("t1.zot", {"g1": "from-P1"})),
+        ("no pattern matches, no template given", (False, False, False), None, False, False, None),
+        ("no pattern matches, explicit template", (False, False, False), "given.zot", False, False, ("given.zot", {})),
+        ("target exists, overwrite not requested", (True, True, True), None, True, False, None),
+        ("target exists, overwrite requested", (False, True, False), None, True, True, ("t2.zot", {"g2": "from-P2"})),
+    ]
+    for label, matches, explicit, exists, overwrite, want in scen:
+        W = World(model, files={}, old_map=None, indexed=set(), errors=set(), whitelist=[], contents=({"/Z/new/page.zo": "OLD"} if exists else {}), missing="all-but-contents")
+        probes = W.probes()
+        base_m = probes["method:*"]
+        rendered: list = []
+
+        def meth(I, recv, name, args, kwargs, st, node, _m=matches):
+            if recv.cls == "vpattern" and name in ("match", "search", "fullmatch"):
+                k = int(recv.tag)
+                st.trace.append(("match", k, args[0] if args else None))
+                return [(Opaque("vmatch", recv.tag) if _m[k - 1] else None, st)]
+            if recv.cls == "vmatch" and name == "groupdict":
+                return [(st.alloc(HObj("dict", fields={f"g{recv.tag}": f"from-P{recv.tag}"})), st)]
+            if recv.cls == "vmatch" and name == "group":
+                return [(f"from-P{recv.tag}", st)]
+            return base_m(I, recv, name, args, kwargs, st, node)
+
+        def render(I, args, kwargs, st, node):
+            tp = args[1] if len(args) > 1 else kwargs.get("template_path")
+            vm = args[2] if len(args) > 2 else kwargs.get("var_map")
+            snap = dict(st.obj(vm).fields) if isinstance(vm, Ref) and st.obj(vm).kind == "dict" else vm
+            rendered.append((getattr(tp, "tag", tp), snap))
+            return [(f"RENDERED#{len(rendered)}", st)]
+
+        def mk_manager(I, args, kwargs, st, node):
+            return [(st.alloc(HObj("obj", cls="zorg.service.templates.ZorgTemplateManager", fields=dict(_zdir=args[0] if args else None))), st)]
+
+        probes["method:*"] = meth
+        probes[F_RENDER] = render
+        probes["zorg.service.templates.ZorgTemplateManager"] = mk_manager
+        I = Interp(model, probes=probes, max_states=2000)
+        st = State()
+        pmap = st.alloc(HObj("dict", fields={Opaque("vpattern", str(k)): vpath(f"t{k}.zot") for k in (1, 2, 3)}))
+        kwargs = dict(should_overwrite_existing=overwrite)
+        if explicit:
+            kwargs["template"] = vpath(explicit)
+        try:
+            res = I.run_function(F_INIT, [vpath("/Z"), pmap, vpath("new/page.zo")], kwargs, st=st)
+        except Exception as e:  # noqa: BLE001
+            run.undecided("C16.R2", "init_from_template", f"{label}: cannot interpret: {type(e).__name__}: {str(e)[:100]}")
+            continue
+        if len(res) != 1:
+            run.undecided("C16.R2", "init_from_template", f"{label}: {len(res)} abstract outcomes on a concrete scenario")
+            continue
+        v, s = res[0]
+        n += 1
+        if isinstance(v, Raised) or s.imprecise:
+            run.undecided("C16.R2", "init_from_template", f"{label}: " + (f"raises {v.exc}" if isinstance(v, Raised) else "; ".join(s.imprecise[:2])))
+            continue
+        written = {k: t for k, t in s.meta.get("vfiles", {}).items()}
+        asked = [t[2] for t in s.trace if t[0] == "match"]
+        if want is None:
+            rid = "C16.R1" if exists else "C16.R3"
+            run.check(rid, f"{label}: nothing is rendered or written", not written and not rendered, "init_from_template", f"{label}: wrote {sorted(written)} rendered {rendered}",
+                      f"with {label}, init_from_template renders {rendered} and writes {sorted(written)}: " + ("an existing page is overwritten without the user asking" if exists else
+                      "a page is created although no template applies"), file=FILE, node=fi.node)
+            continue
+        tname, groups = want
+        ok_t = len(rendered) == 1 and isinstance(rendered[0][0], str) and rendered[0][0].rsplit("/", 1)[-1] == tname
+        run.check("C16.R2", f"{label}: the template of the first matching pattern (configuration order) is rendered, once", ok_t, "init_from_template", f"{label}: rendered {[r[0] for r in rendered]}",
+                  f"with {label}, the templates rendered are {[r[0] for r in rendered]}, expected {tname} once: a later / earlier pattern wins or the explicit template is ignored", file=FILE, node=fi.node)
+        if ok_t:
+            vm = rendered[0][1]
+            ok_g = isinstance(vm, dict) and {k: x for k, x in vm.items() if str(k).startswith("g")} == groups
+            run.check("C16.R2", f"{label}: the template variables are the groups of that very match", ok_g, "init_from_template", f"{label}: variables {vm}",
+                      f"with {label}, the template receives the variables {vm}, expected the groups {groups} of the winning match only", file=FILE, node=fi.node)
+        ok_w = written == {"/Z/new/page.zo": "RENDERED#1"}
+        run.check("C16.R3", f"{label}: the target, and only the target, receives exactly the rendering", ok_w, "init_from_template", f"{label}: wrote {written}",
+                  f"with {label}, the files written are {written}, expected only the target /Z/new/page.zo with the rendering", file=FILE, node=fi.node)
+        if asked:
+            run.check("C16.R2", f"{label}: patterns are matched against the page's name relative to the notes directory", all(a == "new/page.zo" for a in asked), "init_from_template", f"{label}: matched against {asked[:2]}",
+                      f"the patterns are matched against {asked[:2]} rather than the page path relative to the notes directory ('new/page.zo')", file=FILE, node=fi.node)
+    run.floor("init_from_template scenarios", n, 7)
+
+
 def check(run: Run) -> None:
     model = PyModel(run.repo)
     eff = Effects(model)
     run.rule("C16.R1", "no-clobber: no path of init_from_template reaches a write of the target under exists(target) and not overwrite, for every valuation of the other atoms")
-    run.rule("C16.R2", "first match wins: the pattern loop iterates the map as given and leaves at the first match")
+    run.rule("C16.R2", "first match wins, by abstract runs of init_from_template over a configured map of opaque patterns: the template of the first matching pattern in configuration order is rendered once, with that match's groups only, matched against the page name relative to the notes directory")
     run.rule("C16.R3", "no match, no write: every writing path either matched a pattern or was given an explicit template")
     run.rule("C16.R4", "who may overwrite: only call sites fed by a configuration field pass should_overwrite_existing")
     run.rule("C16.R5", "date-like captures: the recogniser regex and the strptime format of _var_map_value agree on YYYYMMDD")
@@ -93,28 +189,8 @@ def check(run: Run) -> None:
     run.floor("writing paths of init_from_template", n_w, 2)
     run.sample(dict(rule="C16.R1", paths=len(paths), writing_paths=n_w, atoms=["exists(new_path)", ow]))
 
-    # ---- R2
-    loops = [n for n in walk_no_nested(fn) if isinstance(n, ast.For) and any("match" in ast.unparse(c.func) for c in ast.walk(n) if isinstance(c, ast.Call))]
-    if len(loops) != 1:
-        run.undecided("C16.R2", "init_from_template", f"expected one pattern loop, found {len(loops)}")
-    else:
-        loop = loops[0]
-        it = ast.unparse(loop.iter)
-        plain = bool(re.fullmatch(r"\w+\.items\(\)", it)) and base_name(loop.iter) in params
-        run.check("C16.R2", "patterns are tried in configuration order", plain, "init_from_template", loop.iter,
-                  f"the pattern loop iterates `{it}` rather than the configured map in its own order", file=FILE, node=loop)
-        ifs = [s for s in loop.body if isinstance(s, ast.If)]
-        ok = False
-        if len(ifs) == 1:
-            last = ifs[0].body[-1]
-            ok = isinstance(last, (ast.Break, ast.Return))
-        run.check("C16.R2", "the loop leaves at the first match", ok, "init_from_template", ifs[0].test if ifs else loop,
-                  "the pattern loop does not stop at the first matching pattern (a later pattern overrides it)", file=FILE, node=loop)
-        # template and variables come from that very iteration
-        tvars = {n.id for n in ast.walk(loop.target) if isinstance(n, ast.Name)}
-        assigned_from_iter = any(isinstance(s, ast.Assign) and names_loaded(s.value) & tvars for s in (ifs[0].body if ifs else []))
-        run.check("C16.R2", "matched template is the one of the matching iteration", assigned_from_iter, "init_from_template", "template binding",
-                  "the matched template is not taken from the matching iteration", file=FILE, node=loop)
+    # ---- R2 / R3 by scenarios
+    init_scenarios(run, model)
 
     # ---- R4
     sites = model.callers_of(F_INIT)
